@@ -155,35 +155,75 @@ def decode_callargs(cx):
 
 
 def header_fields(cx):
+    """HEADER: seven fields, read in order from the begin offset: 10 bytes of version, then six 8-byte fields; the
+    two ANALYSIS offsets read blank as 0.  The field list handed to the named tuple is either filled by appends or
+    a list of locals: each element is traced back to the read it comes from, and the k-th element must come from
+    the k-th read."""
     fn = Fn(cx, HEAD)
     buf = fn.params[0]
-    aps = [st for st in fn.stmts(ast.Expr) if isinstance(st.value, ast.Call) and isinstance(st.value.func, ast.Attribute)
-           and st.value.func.attr == 'append']
-    fv = dotted(aps[0].value.func.value) if aps else None
-    got = [fn.nf(a.value.args[0], at=a, stop=()) for a in aps]
+    reads = [c for c in fn.calls() if isinstance(c.func, ast.Attribute) and c.func.attr == 'read' and dotted(c.func.value) == buf]
+    reads.sort(key=lambda c: (c.lineno, c.col_offset))
+    mk = [c for c in fn.calls() if isinstance(c.func, ast.Attribute) and c.func.attr == '_make']
+    elems = []      # (element expression, statement where it is evaluated)
+    site = fn.ast
+    if len(mk) == 1 and mk[0].args:
+        arg = mk[0].args[0]
+        site = mk[0]
+        if isinstance(arg, ast.List):
+            elems = [(e, fn.cfg.stmt_of(mk[0])) for e in arg.elts]
+        elif isinstance(arg, ast.Name):
+            defs = [d for d in fn.rd.reaching(fn.node(mk[0]), arg.id)]
+            if len(defs) == 1 and isinstance(defs[0].ast, ast.Assign) and isinstance(defs[0].ast.value, ast.List):
+                lst = defs[0].ast
+                elems = [(e, lst) for e in lst.value.elts]
+                aps = [st for st in fn.stmts(ast.Expr) if isinstance(st.value, ast.Call) and isinstance(st.value.func, ast.Attribute)
+                       and st.value.func.attr == 'append' and dotted(st.value.func.value) == arg.id]
+                aps.sort(key=lambda s_: s_.lineno)
+                elems += [(a_.value.args[0], a_) for a_ in aps]
+
+    def origin(expr, at, depth=0):
+        """the buf.read call an element's value comes from"""
+        rs = [c for c in ast.walk(expr) if any(c is r for r in reads)]
+        if rs:
+            return rs[0]
+        if depth > 4:
+            return None
+        for nm in [n for n in ast.walk(expr) if isinstance(n, ast.Name) and isinstance(n.ctx, ast.Load)]:
+            ds = list(fn.rd.reaching(fn.node(at), nm.id))
+            if len(ds) == 1 and ds[0].kind != 'entry':
+                v = fn.rd.assigned_value(ds[0], nm.id)
+                if v is not None:
+                    r = origin(v, ds[0].ast, depth + 1)
+                    if r is not None:
+                        return r
+        return None
+    got = [fn.nf(e, at=st_, stop=()) for e, st_ in elems]
     rd8 = '%s.read(8)' % buf
     want = [sym.norm('%s.read(10).decode(encoding).rstrip()' % buf)] + [sym.norm('int(%s)' % rd8, keep_casts=False)] * 4
-    ok = len(got) == 7 and got[:5] == want
+    order = [origin(e, st_) for e, st_ in elems]
+    in_order = len(order) == 7 and len(reads) == 7 and all(o is r for o, r in zip(order, reads))
+    sizes = [sym.norm(r.args[0]) if r.args else None for r in reads] == [('num', 10)] + [('num', 8)] * 6
+    ok = len(got) == 7 and got[:5] == want and in_order and sizes
     fn.ob('FORMULA', 'HEADER: 10 bytes of version, then TEXT begin/end and DATA begin/end as 8-byte integers, in this order', ok,
-          aps[0] if aps else fn.ast, detail='' if ok else str([sym.show(g) for g in got[:5]]), key='header-fixed')
+          site, detail='' if ok else str([sym.show(g) for g in got[:5]]), key='header-fixed')
     # analysis offsets: blank -> 0
-    ok = len(got) == 7
+    ok = len(got) == 7 and in_order
     if ok:
         for g in got[5:]:
             ok = ok and g[0] == 'ifexp' and g[2] == ('num', 0)
-    fn.ob('FORMULA', 'HEADER: ANALYSIS offsets follow, blank fields read as 0', ok, aps[5] if len(aps) > 5 else fn.ast, key='header-analysis')
-    flds = [st for st in fn.stmts(ast.Assign) if isinstance(st.value, ast.List) and all(isinstance(e, ast.Constant) for e in st.value.elts)]
+    fn.ob('FORMULA', 'HEADER: ANALYSIS offsets follow, blank fields read as 0', ok, site, key='header-analysis')
+    flds = [st for st in fn.stmts(ast.Assign) if isinstance(st.value, ast.List) and st.value.elts and all(isinstance(e, ast.Constant) for e in st.value.elts)]
     ok = bool(flds) and [e.value for e in flds[0].value.elts] == ['version', 'text_begin', 'text_end', 'data_begin', 'data_end',
                                                                   'analysis_begin', 'analysis_end']
     fn.ob('FORMULA', 'HEADER fields are named in the order they are read', ok, flds[0] if flds else fn.ast, key='header-names')
     sk = [c for c in fn.calls() if isinstance(c.func, ast.Attribute) and c.func.attr == 'seek']
-    ok = len(sk) == 1 and sym.norm(sk[0]) == sym.norm('%s.seek(begin)' % buf) and all(sk[0].lineno < a.lineno for a in aps)
+    ok = len(sk) == 1 and sym.norm(sk[0]) == sym.norm('%s.seek(begin)' % buf) and all(sk[0].lineno < r.lineno for r in reads)
     fn.ob('FORMULA', 'HEADER is read from its begin offset', ok, sk[0] if sk else fn.ast, key='header-seek')
     # ... on every call (whatever the offset and the current position of the buffer), and every field is read on every call
     if sk:
         fn.ctx_ob('FORMULA', 'the buffer is positioned at the HEADER begin offset', fn.cfg.stmt_of(sk[0]))
-    for i, a in enumerate(aps[:7]):
-        fn.ctx_ob('FORMULA', 'HEADER field %d is read' % (i + 1), a)
+    for i, r in enumerate(reads[:7]):
+        fn.ctx_ob('FORMULA', 'HEADER field %d is read' % (i + 1), fn.cfg.stmt_of(r))
     return fn
 
 
@@ -306,7 +346,8 @@ def size_checks(cx):
             nb = None
             dd = [v for d, v in fn.reaching_values(dt.id, m)] if isinstance(dt, ast.Name) else []
             if len(dd) == 1 and dd[0] is not None:
-                for c in ast.walk(dd[0]):
+                from ..rules import expand_temps_ast
+                for c in ast.walk(expand_temps_ast(fn, dd[0])):      # the width may sit in a temporary (`nbytes = num_bits // 8`)
                     if isinstance(c, ast.BinOp) and isinstance(c.op, ast.FloorDiv) and isinstance(c.left, ast.Name):
                         nb = c.left.id
             if nb is None:
@@ -568,6 +609,9 @@ def tokenizer(cx):
         fn.ob('TOKENS', 'tokens are appended in three places (plain token, boundary case, tolerated ending)', len(plain) == 3,
               plain[0] if plain else fn.ast, detail='%d appends' % len(plain), key='appends')
         dec = [st for st in fn.stmts(ast.Assign) if sym.norm(st.targets[0]) == idx and sym.norm(st.value) == sym.norm('%s - 1' % idx[1])]
+        # the same step spelled `idx -= 1` (the index is a plain integer)
+        dec += [st for st in fn.stmts(ast.AugAssign) if sym.norm(st.target) == idx and (
+            (isinstance(st.op, ast.Sub) and sym.norm(st.value) == ('num', 1)) or (isinstance(st.op, ast.Add) and sym.norm(st.value) == ('num', -1)))]
         fn.ob('TOKENS', 'the scan index only ever moves one token to the left', len(dec) >= 4, dec[0] if dec else fn.ast,
               detail='%d decrements' % len(dec), key='decrements')
         others = [st for st in fn.stmts((ast.Assign, ast.AugAssign)) if sym.norm(st.targets[0] if isinstance(st, ast.Assign) else st.target) == idx
